@@ -18,6 +18,9 @@ mod rules;
 mod rj;
 mod c12;
 mod req;
+mod sys;
+pub mod sched;
+mod conc;
 pub mod util;
 
 fn main() {
@@ -42,6 +45,8 @@ fn main() {
         "rj" => rj::run_case,
         "c12" => c12::run_case,
         "req" => req::run_case,
+        "sys" => sys::run_case,
+        "conc" => conc::run_case,
         p => {
             eprintln!("unknown property {}", p);
             std::process::exit(2);
